@@ -38,6 +38,16 @@ class SubKI(KeyboardInterrupt):
     pass
 
 
+class ReasonObj:
+    """A skip reason that is not a str but "supports being cast into a unicode string"."""
+
+    def __init__(self, text):
+        self.text = text
+
+    def __str__(self):
+        return self.text
+
+
 PROP = {KeyboardInterrupt: "ki", SystemExit: "exit", SubKI: "subki"}
 
 
@@ -45,6 +55,9 @@ class Target:
     """The object patch() is applied to: one existing attribute, one missing."""
 
     a_exist = "orig"
+
+    def __init__(self):
+        self.a_none = None  # an instance attribute whose pre-test value is None (not "missing")
 
 
 class Env:
@@ -67,11 +80,12 @@ class Env:
 
     def attrs(self):
         out = {}
-        for a in ("a_exist", "a_missing"):
+        for a in ("a_exist", "a_missing", "a_none"):
             if not hasattr(self.obj, a):
                 out[a] = "absent"
             else:
-                out[a] = "patched" if getattr(self.obj, a) == "patched" else "orig"
+                v = getattr(self.obj, a)
+                out[a] = "patched" if v == "patched" else "orig"
         return out
 
 
@@ -94,7 +108,7 @@ def name_str(b, n):
 
 
 MISMATCH_DETAILS = {"m0": [], "m1": ["diff"], "m2": ["traceback", "Failed expectation"]}
-FIXTURE_DETAILS = {"f_ok": ["fxd"], "f_tb": ["traceback"], "f_bad": ["fxd"], "f_cr": ["fxd"]}
+FIXTURE_DETAILS = {"f_ok": ["fxd"], "f_tb": ["traceback"], "f_two": ["traceback", "traceback-1"], "f_bad": ["fxd"], "f_cr": ["fxd"]}
 
 
 class SynthMismatch(Mismatch):
@@ -157,6 +171,8 @@ def make_exc(case, env, unit, kind):
         return RuntimeError(mark)
     if kind == "skip":
         return case.skipException("skipreason:%s:%d" % (unit, env.nraised))
+    if kind == "skipobj":
+        return case.skipException(ReasonObj("skipreason:%s:%d" % (unit, env.nraised)))
     if kind == "subskip":
         return SubSkip("skipreason:%s:%d" % (unit, env.nraised))
     if kind == "ki":
@@ -266,6 +282,14 @@ class SynthBase(testtools.TestCase):
                 e1 = exc_info_of(make_exc(self, env, unit, a))
                 e2 = exc_info_of(make_exc(self, env, unit, b))
                 raise MultipleExceptions(e1, e2)
+            elif op == "raise2n":
+                e1 = exc_info_of(make_exc(self, env, unit, a))
+                e2 = exc_info_of(make_exc(self, env, unit, b))
+                raise MultipleExceptions(exc_info_of(MultipleExceptions(e1, e2)))
+            elif op == "raise0":
+                env.nraised += 1
+                env.note_framework("MultipleExceptions", unit, env.nraised)
+                raise MultipleExceptions()
             else:
                 raise AssertionError("unknown op %r" % (op,))
         env.anomalies.append("script of %s has no final step" % unit)
